@@ -363,7 +363,7 @@ class Oracle:
                     if not set(nd[3]) <= set(d[3]):
                         return "err"
                     out[d[0]] = ("sub", nd)
-                elif v.startswith("l:"):
+                elif v.startswith(("l:", "g:")):
                     its = v[2:].split(",") if v[2:] else []
                     if any(i not in d[3] for i in its):
                         return "err"
